@@ -181,6 +181,9 @@ def validate(ctx, trace, module="RelocTrace"):
             sig = "trace:WOutcome:v%s:variant%s:recorded-%s:direct-%s" % (ev.get("ver"), ev.get("variant"), ev.get("rec"), ev.get("dir"))
         else:
             sig = "trace:%s:%s:%s" % (ev.get("ev"), ev.get("sec"), ev.get("why", ""))
+            if ev.get("ev") == "WSection":
+                # bytes after applying the relocations, or the target sections of the relocations, are wrong
+                sig += "v%s:targets=%s" % (ev.get("ver"), "+".join(sorted(set(r.get("ts", "") for r in ev.get("rels", []) if r.get("tk") == "sec"))))
         ctx.violation(sig,
                       "event not explainable by Reloc.tla: %s" % json.dumps(ev)[:1500], ev, None)
         pos += idx
